@@ -35,6 +35,7 @@ UNITY = """#include "gmp++/gmp++.h"
 """
 
 NCHUNK = 12
+NCHUNK_ALIAS = 12
 
 CTYPE = {"S64": "int64_t", "U64": "uint64_t", "S32": "int32_t", "U32": "uint32_t", "S16": "int16_t", "U16": "uint16_t",
          "S8": "signed char", "U8": "unsigned char", "B": "bool"}
@@ -116,53 +117,38 @@ def callable_from_harness(t):
 
 
 def cxx_stub(t):
-    """C++ lambda calling the overload on parsed arguments and printing ret + outs."""
+    """C++ lambda calling the overload on parsed arguments and printing ret + outs.
+    Parameters that an alias pattern identifies are passed as the SAME C++ object."""
     f = t.f
     lines = []
-    args = []
-    idx = 0
     is_ring = (f.cls or "").startswith("ZRing")
-    params = list(t.params)
-    obj = None
-    if f.is_method and not f.static and f.kind != "CXXConstructorDecl" and not is_ring:
-        n, c, ct = params[0]
-        lines.append("Integer v_self = A.Z(%d);" % idx)
-        idx += 1
-        obj = "v_self"
-        params = params[1:]
-    for (n, c, ct), p in zip(params, f.params):
-        v = "v%d" % idx
+    var = {}
+    for idx, (n, c, ct) in enumerate(t.uparams):
+        v = "v_" + n
+        var[n] = v
         if ct == "Integer":
             lines.append("Integer %s = A.Z(%d);" % (v, idx))
         else:
             lines.append("%s %s = (%s)A.W(%d);" % (CTYPE[ct], v, CTYPE[ct], idx))
-        args.append(v)
-        idx += 1
-    outs = []
-    for label, loc in t.outs:
-        if label == "this":
-            outs.append(("v_self" if f.kind != "CXXConstructorDecl" else "v_new", "Integer"))
-    # map out labels to variables
-    pi = 0
+    params = list(t.params)
+    obj = None
+    if f.is_method and not f.static and f.kind != "CXXConstructorDecl" and not is_ring:
+        obj = var[params[0][0]]
+        params = params[1:]
+    args = [var[n] for n, c, ct in params]
     outvars = []
-    names = [p[0] for p in t.params]
-    off = 1 if obj else 0
     for label, loc in t.outs:
         if label == "this":
-            outvars.append("v_self" if f.kind != "CXXConstructorDecl" else "v_new")
+            outvars.append(obj if f.kind != "CXXConstructorDecl" else "v_new")
         else:
-            j = names.index(label)
-            outvars.append("v%d" % j)
-    # the call
+            outvars.append(var[label])
     a = ", ".join(args)
     if f.kind == "CXXConstructorDecl":
-        call = "Integer v_new(%s);" % a if a else "Integer v_new;"
-        lines.append(call)
+        lines.append("Integer v_new(%s);" % a if a else "Integer v_new;")
         lines.append("O.none();")
     else:
         if f.kind == "CXXConversionDecl":
-            target = CTYPE[t.ret[1]]
-            expr = "%s.operator %s()" % (obj, target)
+            expr = "%s.operator %s()" % (obj, CTYPE[t.ret[1]])
         elif is_ring:
             expr = "ZZ.%s(%s)" % (f.name, a)
         elif obj:
@@ -219,46 +205,78 @@ def lean_chk(t, sp):
     return "decide (%s)" % " ∧ ".join(conj)
 
 
-def generate(outdir_lean, gendir, log=lambda *a: None):
-    docs = gmpxx.dump_ast(UNITY.format(r=common.REPO), common.inc_flags(), os.path.join(common.CACHE, "ast_integer"))
-    prog = gmpxx.Program(docs)
-    ts, bad = collect(prog)
-    os.makedirs(gendir, exist_ok=True)
+class Chunks:
+    """theorem text is distributed round-robin over n modules so that lake proves them in parallel"""
+    def __init__(self, n):
+        self.bufs = [[] for _ in range(n)]
+        self.i = 0
+        self.where = {}
+
+    def write(self, txt):
+        self.bufs[self.i].append(txt)
+
+    def next(self, name):
+        self.i = (self.i + 1) % len(self.bufs)
+        self.where[name] = self.i
+
+
+def alias_patterns(t):
+    """Alias patterns of a translated overload: set partitions of the Integer reference parameters (incl. *this) with at
+    least one non-trivial group and no group holding two outputs.  More than four such parameters: pairs only."""
+    pos = [i for i, (n, c, ct) in enumerate(t.params) if ct == "Integer" and t.isrefs[i]]
+    outs = {i for i in pos if t.params[i][1] == "Z"}
+    if len(pos) < 2 or not outs:
+        return []
+    pats = []
+    if len(pos) <= 4:
+        def parts(xs):
+            if not xs:
+                yield []
+                return
+            x, rest = xs[0], xs[1:]
+            for p in parts(rest):
+                yield [[x]] + p
+                for k in range(len(p)):
+                    yield p[:k] + [[x] + p[k]] + p[k + 1:]
+        for p in parts(pos):
+            gs = [tuple(sorted(g)) for g in p if len(g) > 1]
+            if not gs or any(len(outs & set(g)) > 1 for g in gs):
+                continue
+            pats.append(sorted(gs))
+    else:
+        for a in pos:
+            for b in pos:
+                if a < b and not (a in outs and b in outs):
+                    pats.append([(a, b)])
+    return pats
+
+
+def emit_set(ts, bad, prefix, entry_fn, outdir_lean, gendir, nchunk, what):
+    """Write model, specs, theorem chunks, driver table, harness stubs and meta for one set of translated bodies."""
     gen = os.path.join(outdir_lean, "GivaroModel", "Generated")
     os.makedirs(gen, exist_ok=True)
-
-    # ---- model
-    with open(os.path.join(gen, "IntegerOps.lean"), "w") as fh:
+    low = prefix[0].lower() + prefix[1:]
+    with open(os.path.join(gen, prefix + "Ops.lean"), "w") as fh:
         fh.write("/- GENERATED by translate/gen_integer.py from /repo's working tree -- do not edit.\n"
-                 "   One definition per C++ function body of the gmp++ Integer layer (symbolic execution of the clang AST). -/\n"
-                 "import GivaroModel.Prim.Gmp\nset_option maxRecDepth 4000\nset_option linter.unusedVariables false\nnamespace Givaro.Gen\nopen Givaro\n\n")
+                 "   %s (symbolic execution of the clang AST). -/\n"
+                 "import GivaroModel.Prim.Gmp\nset_option maxRecDepth 4000\nset_option linter.unusedVariables false\nnamespace Givaro.Gen\nopen Givaro\n\n" % what)
         for t in ts:
             f = t.f
-            fh.write("/-- `%s %s`  (%s:%s) -/\n" % (f.name, f.qual, os.path.basename(f.file), f.line))
+            fh.write("/-- `%s %s`  (%s:%s)%s -/\n" % (f.name, f.qual, os.path.basename(f.file), f.line,
+                                                     ("  alias pattern %s" % t.alias) if t.alias else ""))
             fh.write(t.lean + "\n\n")
         fh.write("end Givaro.Gen\n")
 
-    # ---- specs + theorems
     meta = {"functions": [], "untranslatable": bad}
     specs = {}
-    class Chunks:
-        """theorem text is distributed round-robin over NCHUNK modules so that lake proves them in parallel"""
-        def __init__(self, n):
-            self.bufs = [[] for _ in range(n)]
-            self.i = 0
-            self.where = {}
-        def write(self, txt):
-            self.bufs[self.i].append(txt)
-        def next(self, name):
-            self.i = (self.i + 1) % len(self.bufs)
-            self.where[name] = self.i
-    ft = Chunks(NCHUNK)
+    ft = Chunks(nchunk)
     THM_HDR = ("/- GENERATED by translate/gen_integer.py -- do not edit.\n"
-               "   One theorem per overload: under the range of each machine-word argument and the documented\n"
+               "   One theorem per overload%s: under the range of each machine-word argument and the documented\n"
                "   precondition, the translated body satisfies its specification. -/\n"
-               "import GivaroModel.Generated.IntegerOps\nimport GivaroModel.Generated.IntegerSpecs\nimport GivaroModel.Lemmas.IntegerTactics\n"
-               "set_option maxRecDepth 4000\nset_option linter.unusedVariables false\nnamespace Givaro.Gen\nopen Givaro\n\n")
-    with open(os.path.join(gen, "IntegerSpecs.lean"), "w") as fs:
+               "import GivaroModel.Generated.%sOps\nimport GivaroModel.Generated.%sSpecs\nimport GivaroModel.Lemmas.IntegerTactics\n"
+               "set_option maxRecDepth 4000\nset_option linter.unusedVariables false\nnamespace Givaro.Gen\nopen Givaro\n\n"
+               % (" and alias pattern" if prefix != "Integer" else "", prefix, prefix))
+    with open(os.path.join(gen, prefix + "Specs.lean"), "w") as fs:
         fs.write("/- GENERATED by translate/gen_integer.py from translate/integer_spec.py -- do not edit.\n"
                  "   Per overload: the precondition, the specified result and the Bool checker used by the driver. -/\n"
                  "import GivaroModel.Prim.Gmp\nimport GivaroModel.Spec.IntegerSpec\nset_option linter.unusedVariables false\nnamespace Givaro.Gen\nopen Givaro\n\n")
@@ -266,17 +284,19 @@ def generate(outdir_lean, gendir, log=lambda *a: None):
             sp = integer_spec.spec_for(t)
             if sp is not None and sp["ret"] is None and t.ret[0] == "void" and sp["cmp"] == "exact":
                 sp["ret"] = "0"    # void functions / constructors: the model's returned value is the literal 0
-            names = [p[0] for p in t.params]
-            args = " ".join(names)
-            binder = ("(%s : Int) " % args) if names else ""
+            names = [p[0] for p in t.params]          # per position (aliased positions repeat a name)
+            unames = [p[0] for p in t.uparams]
+            args = " ".join(unames)
+            binder = ("(%s : Int) " % args) if unames else ""
             rec = dict(key=t.key, name=t.f.name, type=t.f.qual, file=os.path.basename(t.f.file), line=t.f.line, cls=t.f.cls,
-                       params=[(n, c, ct) for n, c, ct in t.params], nouts=len(t.outs), ret=list(t.ret),
-                       access=t.f.access, spec=None, leaves=gmpxx.tree_stats(t.tree)[0])
+                       params=[(n, c, ct) for n, c, ct in t.uparams], nouts=len(t.outs), ret=list(t.ret),
+                       access=t.f.access, spec=None, leaves=gmpxx.tree_stats(t.tree)[0], alias=t.alias,
+                       base_key=getattr(t, "base_key", t.key))
             if sp is not None and callable_from_harness(t):
                 specs[t.key] = sp
                 exact = sp["ret"] is not None and all(o is not None for o in sp["outs"]) and sp["cmp"] == "exact"
                 pre_l = [integer_spec.pre_lean(p) for p in sp["pre"]]
-                rng = ["In%s %s" % (ct, n) for n, c, ct in t.params if ct != "Integer"]
+                rng = ["In%s %s" % (ct, n) for n, c, ct in t.uparams if ct != "Integer"]
                 fs.write("def %s_pre %s: Bool := decide (%s)\n" % (t.key, binder, " ∧ ".join(rng + pre_l) if (rng + pre_l) else "True"))
                 if exact:
                     fs.write("def %s_spec %s: Res := ⟨%s, [%s], false⟩\n" % (t.key, binder, sp["ret"], ", ".join(sp["outs"])))
@@ -284,60 +304,87 @@ def generate(outdir_lean, gendir, log=lambda *a: None):
                 else:
                     fs.write("def %s_chk %s(rr_ : Res) : Bool := %s\n\n" % (t.key, binder, lean_chk(t, sp)))
                 ft.next(t.key)
-                hyps = range_hyps(t) + ["(hp%d : %s)" % (i, p) for i, p in enumerate(pre_l)]
+                hyps = ["(h_%s : In%s %s)" % (n, ct, n) for n, c, ct in t.uparams if ct != "Integer"] + \
+                       ["(hp%d : %s)" % (i, p) for i, p in enumerate(pre_l)]
                 tac = TACTIC.get(sp["fam"], "gmp_lin")
                 if tac == "gmp_div":
                     nzs = [p[1] for p in sp["pre"] if p[0] == "nz"]
                     dv = nzs[0] if nzs else names[-1]
                     m_ = re.search(r"\(Spec\.\w+ (\w+) %s\)" % re.escape(dv), (sp["ret"] or "") + " " + " ".join(o or "" for o in sp["outs"]))
                     tac = "gmp_div %s %s" % (m_.group(1) if m_ else names[0], dv)
+                wid = "".join("  wrap_id %s\n" % n for n, c, ct in t.uparams if ct != "Integer")
                 if exact:
-                    wid = "".join("  wrap_id %s\n" % n for n, c, ct in t.params if ct != "Integer")
                     ft.write("theorem %s_exact %s%s :\n    %s %s = %s_spec %s := by\n  unfold %s %s_spec\n%s  %s\n\n" %
                              (t.key, binder, " ".join(hyps), t.key, args, t.key, args, t.key, t.key, wid, tac))
                 else:
-                    wid = "".join("  wrap_id %s\n" % n for n, c, ct in t.params if ct != "Integer")
                     ft.write("theorem %s_exact %s%s :\n    %s_chk %s (%s %s) = true := by\n  unfold %s\n%s  gmp_cert %s_chk\n\n" %
                              (t.key, binder, " ".join(hyps), t.key, args, t.key, args, t.key, wid, t.key))
                 rec["spec"] = dict(fam=sp["fam"], prop=sp["prop"], pre=[list(p) for p in sp["pre"]], exact=exact, cmp=sp["cmp"])
             meta["functions"].append(rec)
         fs.write("end Givaro.Gen\n")
     for f_old in os.listdir(gen):
-        if f_old.startswith("IntegerThms"):
+        if re.match(re.escape(prefix) + r"Thms(\d\d)?\.lean$", f_old):
             os.unlink(os.path.join(gen, f_old))
     for ci, buf in enumerate(ft.bufs):
-        with open(os.path.join(gen, "IntegerThms%02d.lean" % ci), "w") as fh:
+        with open(os.path.join(gen, "%sThms%02d.lean" % (prefix, ci)), "w") as fh:
             fh.write(THM_HDR + "".join(buf) + "end Givaro.Gen\n")
-    with open(os.path.join(gen, "IntegerThms.lean"), "w") as fh:
-        fh.write("/- GENERATED: umbrella importing every theorem chunk -/\n" + "".join("import GivaroModel.Generated.IntegerThms%02d\n" % ci for ci in range(NCHUNK)))
+    with open(os.path.join(gen, prefix + "Thms.lean"), "w") as fh:
+        fh.write("/- GENERATED: umbrella importing every theorem chunk -/\n" + "".join("import GivaroModel.Generated.%sThms%02d\n" % (prefix, ci) for ci in range(nchunk)))
     meta["thm_chunk"] = ft.where
-    meta["nchunk"] = NCHUNK
+    meta["nchunk"] = nchunk
 
-    # ---- driver table
-    with open(os.path.join(outdir_lean, "Driver", "IntegerTable.lean"), "w") as fd:
+    with open(os.path.join(outdir_lean, "Driver", prefix + "Table.lean"), "w") as fd:
         fd.write("/- GENERATED by translate/gen_integer.py -- do not edit. -/\n"
-                 "import GivaroModel.Generated.IntegerOps\nimport GivaroModel.Generated.IntegerSpecs\n"
+                 "import GivaroModel.Generated.%sOps\nimport GivaroModel.Generated.%sSpecs\n"
                  "namespace Givaro.Gen\nopen Givaro\n\n"
-                 "/-- key ↦ (arity, fun args => (precondition holds, model result, checker applied to a given result)) -/\n"
-                 "def integerEntry (key : String) (a : Array Int) : Option (Bool × Res × (Res → Bool) × String) :=\n  match key with\n")
+                 "/-- key ↦ (precondition holds, model result, checker applied to a given result, comparison mode) -/\n"
+                 "def %s (key : String) (a : Array Int) : Option (Bool × Res × (Res → Bool) × String) :=\n  match key with\n" % (prefix, prefix, entry_fn))
         for t in ts:
             if t.key not in specs:
                 continue
-            n = len(t.params)
+            n = len(t.uparams)
             al = " ".join("a[%d]!" % i for i in range(n))
             mode = specs[t.key]["cmp"]
             mode = {"bezout": "cert", "bezout2": "cert", "invmod": "cert"}.get(mode, mode)
             fd.write('  | "%s" => if a.size = %d then some (%s_pre %s, %s %s, %s_chk %s, "%s") else none\n' % (t.key, n, t.key, al, t.key, al, t.key, al, mode))
         fd.write("  | _ => none\n\nend Givaro.Gen\n")
 
-    # ---- harness stubs
-    with open(os.path.join(gendir, "integer_calls.inc"), "w") as fc:
+    with open(os.path.join(gendir, low + "_calls.inc"), "w") as fc:
         fc.write("// GENERATED by translate/gen_integer.py -- one stub per specified overload\n")
         for t in ts:
             if t.key in specs:
                 fc.write(cxx_stub(t) + "\n")
-    with open(os.path.join(gendir, "integer_meta.json"), "w") as fm:
+    with open(os.path.join(gendir, low + "_meta.json"), "w") as fm:
         json.dump(meta, fm, indent=1)
+    return meta, specs
+
+
+def generate(outdir_lean, gendir, log=lambda *a: None, with_alias=True):
+    docs = gmpxx.dump_ast(UNITY.format(r=common.REPO), common.inc_flags(), os.path.join(common.CACHE, "ast_integer"))
+    prog = gmpxx.Program(docs)
+    ts, bad = collect(prog)
+    os.makedirs(gendir, exist_ok=True)
+    meta, specs = emit_set(ts, bad, "Integer", "integerEntry", outdir_lean, gendir, NCHUNK,
+                           "One definition per C++ function body of the gmp++ Integer layer")
+    if with_alias:
+        # C15: the same bodies re-executed with parameters sharing one location, for every alias pattern
+        al_ts, al_bad = [], []
+        for t in ts:
+            if t.key not in specs:
+                continue
+            for pat in alias_patterns(t):
+                try:
+                    ta = gmpxx.translate_function(prog, t.f, alias=pat)
+                    ta.base = t.base
+                    ta.base_key = t.key
+                    ta.lean = gmpxx.emit_def(ta)
+                    al_ts.append(ta)
+                except Untranslatable as e:
+                    al_bad.append(dict(name=t.f.name, type=t.f.qual, file=os.path.basename(t.f.file), line=t.f.line, reason=str(e),
+                                       cls=t.f.cls, alias=[list(g) for g in pat], base_key=t.key))
+        ameta, aspecs = emit_set(al_ts, al_bad, "IntegerAlias", "integerAliasEntry", outdir_lean, gendir, NCHUNK_ALIAS,
+                                 "The bodies of the gmp++ Integer layer re-executed under every alias pattern of their reference parameters")
+        meta["alias_functions"] = len(ameta["functions"])
     return meta
 
 
